@@ -134,6 +134,9 @@ def fn_key(f):
 
 
 HELPER_FNS = {}  # private free functions of data_type/function.rs, by name (filled by rule_m)
+SRC = [None]  # the Src being read (set by rule_m)
+VALUE_HELPERS = {}  # one-expression private helpers with parameters (canon.value_helpers), filled by rule_m / rule_s
+from .canon import inline_value_helpers, value_helpers
 
 
 def resolve(n, fn):
@@ -161,8 +164,27 @@ def resolve(n, fn):
     return n
 
 
+def _imported_consts(fn, src):
+    """bare names of std::f64::consts the function may use: `use std::f64::consts::{PI, TAU};` in its body or at the top of its file"""
+    import re as _re
+    from . import c06_rules as _r
+
+    uses = [st["item"]["src"] for st in (fn.body.get("stmts", []) if fn.body else []) if st.get("k") == "item" and st["item"].get("k") == "use"]
+    uses += [t[2]["src"] for t in src.items if t[0] == fn.file and isinstance(t[2], dict) and t[2].get("k") == "use"]
+    out = set()
+    for u in uses:
+        u = u.replace(" ", "")
+        if "f64::consts::" in u:
+            out |= {x for x in _re.findall(r"[A-Z][A-Z_0-9]*", u.split("consts::", 1)[1]) if x in _r.CONSTS and x not in ("MAX", "MIN")}
+    return out
+
+
 def extract(site):
     n, ctor = site.node, site.ctor
+    from . import c06_rules as _r
+
+    _r.BARE_CONSTS.clear()
+    _r.BARE_CONSTS.update(_imported_consts(site.fn, SRC[0]))
     if ctor == "new" or len(n["args"]) != 2:
         raise Undec("PartitionnedMonotonic::%s with an arbitrary partition closure" % ctor)
     arity = CTORS[ctor]
@@ -181,7 +203,7 @@ def extract(site):
             raise Undec("pieces of different element types")
     site.types = types
     site.pieces = [[(lo, hi) for (_, lo, hi) in b] for b in boxes]
-    site.closure = resolve(n["args"][1], site.fn)
+    site.closure = inline_value_helpers(resolve(n["args"][1], site.fn), VALUE_HELPERS)  # `|x, y| clamp_float(x + y)`: a one-expression private helper is the expression it names
 
 
 # ---------------------------------------------------------------------------------------------------------------- cover
@@ -263,6 +285,9 @@ def piece_str(site, piece):
 
 
 def rule_m(rep, src):
+    SRC[0] = src
+    VALUE_HELPERS.clear()
+    VALUE_HELPERS.update(value_helpers(src, FN))
     HELPER_FNS.clear()
     HELPER_FNS.update({f.name: f for f in src.fns if f.file == FN and not f.self_ty and not f.test and f.body and not [p for p in f.params if not p.get("self")] and (f.node.get("vis") or "") != "pub"})
     rep.rule(
@@ -524,6 +549,7 @@ def rule_s(rep, src):
             t = re.sub(r"\b%s\b" % re.escape(p), "p%d" % i, t)
         return t.replace(" ", "").replace("(", "").replace(")", "")
 
+    vh = value_helpers(src, "data_type/function.rs")
     for f in src.find_fns(file="data_type/function.rs"):
         if f.self_ty or f.node.get("vis") != "pub":
             continue
@@ -531,7 +557,7 @@ def rule_s(rep, src):
         for c in find(f.body, "call"):
             p = path_of(c["f"]) or ""
             if p.startswith("PartitionnedMonotonic::"):
-                cls += [norm(a) for a in c["args"] if a["k"] == "closure"]
+                cls += [norm(inline_value_helpers(a, vh)) for a in c["args"] if a["k"] == "closure"]
         if len(cls) < 2:
             continue
         key = "function::" + f.name
